@@ -79,7 +79,20 @@ impl FrameSpec {
             subsampling_x: self.ss.0,
             subsampling_y: self.ss.1,
             full_range: self.h % 2 == 0,
-            matrix_coefficients: MatrixCoefficients::BT709,
+            // every matrix value appears (the constructor must not care); fully specified, so the config is returned verbatim
+            matrix_coefficients: [
+                MatrixCoefficients::BT709,
+                MatrixCoefficients::Identity,
+                MatrixCoefficients::BT470BG,
+                MatrixCoefficients::YCgCo,
+                MatrixCoefficients::BT2020ConstantLuminance,
+                MatrixCoefficients::ST2085,
+                MatrixCoefficients::ICtCp,
+                MatrixCoefficients::Reserved,
+                MatrixCoefficients::BT2020NonConstantLuminance,
+                MatrixCoefficients::ChromaticityDerivedNonConstantLuminance,
+                MatrixCoefficients::ChromaticityDerivedConstantLuminance,
+            ][(self.w * 3 + self.h + self.pad.1 + self.depth as usize) % 11],
             transfer_characteristics: TransferCharacteristic::BT1886,
             color_primaries: ColorPrimaries::BT709,
         }
